@@ -17,6 +17,7 @@ package executor
 import (
 	"fmt"
 	"math"
+	"sort"
 
 	"github.com/openGemini/openGemini/engine/hybridqp"
 	"github.com/openGemini/openGemini/lib/errno"
@@ -33,7 +34,11 @@ func init() {
 	newPromFunc["stdvar_prom"] = NewStdvarPromFunc
 	newPromFunc["stddev_prom"] = NewStddevPromFunc
 	newPromFunc["group_prom"] = NewGroupPromFunc
+	newPromFunc["quantile_prom"] = NewQuantilePromFunc
 }
+
+// quantilePromFunc continues the AggFuncType enumeration of hash_agg_func.gen.go.
+const quantilePromFunc AggFuncType = groupPromFunc + 1
 
 func GetOrdinal(inRowDataType, outRowDataType hybridqp.RowDataType, opt hybridqp.ExprOptions) (int, int) {
 	inOrdinal := inRowDataType.FieldIndex(opt.Expr.(*influxql.Call).Args[0].(*influxql.VarRef).Val)
@@ -97,6 +102,95 @@ func NewGroupPromFunc(inRowDataType, outRowDataType hybridqp.RowDataType, opt hy
 		return nil, fmt.Errorf("input and output schemas are not aligned for group_prom iterator")
 	}
 	return NewPromFunc(inRowDataType, groupPromFunc, NewGroupPromOperator, inOrdinal, outOrdinal)
+}
+
+// NewQuantilePromFunc is quantile_prom(field, q) over the output of a sub-query or of a binary
+// operation (the hash aggregation): without it `quantile(0.5, sum by (job) (m))` failed with
+// "unsupported aggregation operator of call processor".
+func NewQuantilePromFunc(inRowDataType, outRowDataType hybridqp.RowDataType, opt hybridqp.ExprOptions) (*aggFunc, error) {
+	call, ok := opt.Expr.(*influxql.Call)
+	if !ok || len(call.Args) != 2 {
+		return nil, fmt.Errorf("invalid number of arguments for quantile_prom")
+	}
+	var q float64
+	switch arg := call.Args[1].(type) {
+	case *influxql.NumberLiteral:
+		q = arg.Val
+	case *influxql.IntegerLiteral:
+		q = float64(arg.Val)
+	default:
+		return nil, fmt.Errorf("the type of input args of quantile_prom iterator is unsupported")
+	}
+	inOrdinal, outOrdinal := GetOrdinal(inRowDataType, outRowDataType, opt)
+	if inOrdinal < 0 || outOrdinal < 0 {
+		return nil, fmt.Errorf("input and output schemas are not aligned for quantile_prom iterator")
+	}
+	dataType := inRowDataType.Field(inOrdinal).Expr.(*influxql.VarRef).Type
+	if dataType != influxql.Float {
+		return nil, errno.NewError(errno.UnsupportedDataType, "quantile_prom", dataType.String())
+	}
+	return NewAggFunc(quantilePromFunc, NewQuantilePromOperator, inOrdinal, outOrdinal, q), nil
+}
+
+type quantilePromOperator struct {
+	val []float64
+}
+
+func NewQuantilePromOperator() aggOperator {
+	return &quantilePromOperator{}
+}
+
+func (s *quantilePromOperator) Compute(c Chunk, colLoc int, startRowLoc int, endRowLoc int, _ any) error {
+	if c.Column(colLoc).NilCount() != 0 {
+		startRowLoc, endRowLoc = c.Column(colLoc).GetRangeValueIndexV2(startRowLoc, endRowLoc)
+	}
+	s.val = append(s.val, c.Column(colLoc).FloatValues()[startRowLoc:endRowLoc]...)
+	return nil
+}
+
+// SetOutVal is the quantile of the Prometheus engine (promql/quantile.go: quantile), as
+// QuantileReduce computes it for the store-side operator.
+func (s *quantilePromOperator) SetOutVal(c Chunk, colLoc int, para any) {
+	if len(s.val) == 0 {
+		c.Column(colLoc).AppendNil()
+		return
+	}
+	q, _ := para.(float64)
+	var v float64
+	switch {
+	case math.IsNaN(q):
+		v = math.NaN()
+	case q < 0:
+		v = math.Inf(-1)
+	case q > 1:
+		v = math.Inf(+1)
+	default:
+		sort.Slice(s.val, func(i, j int) bool {
+			if math.IsNaN(s.val[i]) {
+				return true
+			}
+			return s.val[i] < s.val[j]
+		})
+		n := float64(len(s.val))
+		rank := q * (n - 1)
+		lowerIndex := math.Max(0, math.Floor(rank))
+		upperIndex := math.Min(n-1, lowerIndex+1)
+		weight := rank - math.Floor(rank)
+		v = s.val[int(lowerIndex)]*(1-weight) + s.val[int(upperIndex)]*weight
+	}
+	c.Column(colLoc).AppendFloatValue(v)
+	c.Column(colLoc).AppendNotNil()
+}
+
+// not use
+func (s *quantilePromOperator) SetNullFill(oc Chunk, colLoc int, time int64) {
+}
+
+func (s *quantilePromOperator) SetNumFill(oc Chunk, colLoc int, fillVal interface{}, time int64) {
+}
+
+func (s *quantilePromOperator) GetTime() int64 {
+	return DefaultTime
 }
 
 type countPromOperator struct {
